@@ -149,6 +149,56 @@ def _task_decode(task):
     return t
 
 
+ACCESSORS = FIELDS + ("data_length", "header_values", "__str__")
+
+
+def _task_access_orders(task):
+    """The accessors are cached per object: every ORDER of reading two of them (and three for a smaller family) on a fresh packet
+    must give the layout's values - reading one accessor must not disturb another."""
+    from space_packet_parser import packets as pk
+    import itertools
+    t = Tally()
+    with owned_clock(), case_alarm(900):
+        for combo in task["combos"]:
+            v = dict(zip(FIELDS, combo[:6]))
+            n = combo[6]
+            want = {**v, "data_length": n - 1, "header_values": tuple(v[f] for f in FIELDS) + (n - 1,)}
+            raw = _ref_header(v, n) + bytes(n)
+            for source in ("create", "framer"):
+                orders = list(itertools.permutations(ACCESSORS, 2)) + [("header_values",) + FIELDS, FIELDS + ("header_values",), ("__str__",) + FIELDS]
+                if task["triples"]:
+                    orders += list(itertools.permutations(("type", "secondary_header_flag", "header_values", "version_number", "sequence_flags"), 3))
+                for order in orders:
+                    if source == "create":
+                        p = pk.create_ccsds_packet(bytes(n), **v)
+                    else:
+                        items, end = pull(pk.ccsds_generator(raw), horizon=2)
+                        if len(items) != 1:
+                            t.violation({"kind": "decode-mismatch"}, {"raw": raw[:8].hex()}, observed=end)
+                            break
+                        p = items[0]
+                    t.evals += 1
+                    bad = None
+                    for a in order:
+                        if a == "__str__":
+                            sp = str(p)
+                            for f in FIELDS:
+                                if f"{f}={v[f]}," not in sp.replace("<SequenceFlags.", "").replace(" ", "") and f"{f}={v[f]}" not in sp:
+                                    pass  # formatting of str() is not part of the claim; it only must not disturb the accessors
+                            continue
+                        got = getattr(p, a)
+                        if (tuple(got) if a == "header_values" else got) != want[a]:
+                            bad = (a, got)
+                            break
+                    if bad:
+                        t.violation({"kind": "accessor-order-dependent", "accessor": bad[0], "source": source},
+                                    {"fields": v, "data_len": n, "order": list(order), "source": source}, expected=want[bad[0]], observed=repr(bad[1]),
+                                    note="an accessor returns a wrong value after another accessor was read first")
+            t.nontrivial += 1
+            t.outcomes["access-orders"] += 1
+    return t
+
+
 def _rejections(t: Tally):
     from space_packet_parser import packets as pk
     base = {"version_number": 1, "type": 1, "secondary_header_flag": 1, "apid": 5, "sequence_flags": 2,
@@ -198,6 +248,10 @@ def run(ctx):
     tally.merge(fan_out(_task_product, [{"combos": ch} for ch in chunked(combos, 64)], jobs=ctx.jobs, seed=ctx.seed))
     items = [(1, w) for w in words] + [(2, w) for w in words]
     tally.merge(fan_out(_task_decode, [{"items": ch} for ch in chunked(items, 32)], jobs=ctx.jobs, seed=ctx.seed))
+    # adjacent fields get different values so that a swap or an overlap between neighbours shows
+    ocombos = [c for c in itertools.product((0, 5, 7), (0, 1), (0, 1), (0, 1365, 2047), (0, 2, 3), (0, 10922, 16383), (1, 2, 65536))
+               if ctx.quick is False or (c[1] != c[2] or c[0] == 5)]
+    tally.merge(fan_out(_task_access_orders, [{"combos": ch, "triples": not ctx.quick} for ch in chunked(ocombos, 48)], jobs=ctx.jobs, seed=ctx.seed))
     _rejections(tally)
     tally.sample({"fields": {"version_number": 7, "type": 1, "secondary_header_flag": 1, "apid": 2047,
                              "sequence_flags": 3, "sequence_count": 16383}, "data_len": 65536})
@@ -208,7 +262,9 @@ def run(ctx):
         "bound": ("encode: all 2^16 values of header word 1 x 2 settings of word 2; all 2^16 values of word 2 x 2 settings of word 1; "
                   f"{len(lengths)} data lengths ({'every length 1..65536' if not ctx.quick else '1..519, 2^i +-2, 65535, 65536'}) x 2 header settings; "
                   f"product of {'5' if not ctx.quick else '3'} boundary values of the six fields x {len(lens)} lengths = {len(combos)}; "
-                  "decode: every 16-bit value of each header word x 3 settings of the other; rejection: each field at -1, max+1, +-2^31, "
+                  "decode: every 16-bit value of each header word x 3 settings of the other; accessor caching: every ordered pair of the 9 accessors "
+                  "(7 fields, header_values, str) read on a fresh object from both create_ccsds_packet and the framer, over a product of field values with "
+                  "unequal neighbours; rejection: each field at -1, max+1, +-2^31, "
                   "data of 0 and 65537 bytes"),
         "rule": ("one evaluation = one construction (with accessor read-back and re-framing) or one decode; distinct non-trivial = "
                  "distinct header-word values / lengths / boundary combinations / rejection cases"),
@@ -233,6 +289,12 @@ def replay(case):
                 return None
             return {"sig": {"kind": "decode-mismatch"}, "case": case, "expected": want}
         v, n = case["fields"], case["data_len"]
+        if "order" in case:
+            t2 = _task_access_orders({"combos": [tuple(v[f] for f in FIELDS) + (n,)], "triples": True})
+            for viol in t2.violations:
+                if viol["case"]["order"] == case["order"] and viol["case"]["source"] == case["source"]:
+                    return viol
+            return None
         if _in_range(v, n):
             _check_encode(t, v, bytes(n))
             return t.violations[0] if t.violations else None
